@@ -4,6 +4,7 @@
   and a full read of a view with the entry nodes' labels.
 -/
 import XotModel.Model.FmapEntry
+import XotModel.Model.FmapSpec2
 import XotModel.Driver.Forest
 
 namespace XotModel.Driver
@@ -40,6 +41,19 @@ def showMapFull (s : FState) (k : Forest.MapKind) (h : Nat) : String :=
       s!"{Forest.entryKey c.value}:{showPayload c.value}@{l}"
     s!"n={cs.length} e={if cs.isEmpty then 1 else 0} " ++ String.intercalate " " items
 
+def showFmapPayload : Fmap.Payload → String
+  | .str v => encStr v
+  | .ns n => toString n
+  | .other => "?"
+
+def showFmapPairs (l : List (Nat × Fmap.Payload)) : String :=
+  String.intercalate "," (l.map fun p => s!"{p.1}:{showFmapPayload p.2}")
+
+/-- `iter()`, `to_vec()` and `to_hashmap()` (key-sorted) of a view (Model/FmapSpec2.lean). -/
+def showFmapIter (s : FState) (k : Forest.MapKind) (h : Nat) : String :=
+  s!"iter={showFmapPairs (Fmap.mapIter s.forest k h)} vec={showFmapPairs (Fmap.mapToVec s.forest k h)} " ++
+  s!"hm={showFmapPairs (Fmap.mapToHashmap s.forest k h)}"
+
 def handleFmap (s : FState) (ws : List String) : Option (FState × String) :=
   let node (w : String) : Option Nat := do s.handleOf (← w.toNat?)
   let fin (f : Forest) (r : String) : Option (FState × String) :=
@@ -64,6 +78,16 @@ def handleFmap (s : FState) (ws : List String) : Option (FState × String) :=
       let k ← mapKind? kind
       let (f, r) := s.forest.entryInsert k (← node a) (← entryValue? k key val)
       fin f (showRes r)
+  | ["occupied_insert", kind, a, key, val] => do
+      let k ← mapKind? kind
+      let (f, r) := s.forest.occupiedInsert k (← node a) (← entryValue? k key val)
+      fin f (showRes r)
+  | ["vacant_insert", kind, a, key, val] => do
+      let k ← mapKind? kind
+      let (f, r) := s.forest.vacantInsert k (← node a) (← entryValue? k key val)
+      fin f (showRes r)
+  | ["map_iter_ro", kind, a] => do some (s, showFmapIter s (← mapKind? kind) (← node a))
+  | ["map_iter_mut", kind, a] => do some (s, showFmapIter s (← mapKind? kind) (← node a))
   | ["entry_remove", kind, a, key] => do
       let k ← mapKind? kind
       let (f, r) := s.forest.entryRemove k (← node a) (← key.toNat?)
